@@ -211,15 +211,16 @@ plan(Plan(
 ))
 plan(Plan(
     id="C10", title="Dependencies are validated, then resolve one per name to the highest version",
-    contracts=DEPS_FNS,
+    contracts=DEPS_FNS + [CORE + "HTMLDependency.__init__"],
     lean={"HV.C10": ["C10_resolve_names_nodup", "C10_resolve_order", "C10_resolve_is_max_earliest", "C10_resolve_max", "C10_resolve_subset", "C10_resolve_complete",
                      "C10_resolve_idem", "C10_collect_acc", "C10_collect_append", "C10_collect_dep", "C10_collect_tag", "C10_collect_other", "C10_dedup_false",
                      "C10_placement_independent"]},
     oracle="c10", design_ref="§7 C10", level="proof",
-    bounded=["B:C10:HTMLDependency.__init__ validation (TypeError/KeyError shapes, single item == one-element list): bounded battery in the oracle, not an R-obligation",
+    bounded=["B:C10:HTMLDependency.__init__ validation is verified on argument shapes with item lists of length <= 2 (contents symbolic): a bound on the list length",
              "B:C10:packaging.Version ordering (1.9 < 1.10 = 1.10.0 ...): exercised by the oracle with real Version objects"],
     assumptions=["packaging.Version comparison is a strict total order (its image in Int is the `ver` field); Version parsing is external",
-                 "the constructor-validation clause of the statement is covered by the bounded oracle only (labelled B:, never counted as discharged)"],
+                 "the constructor-validation clause is verified by executing __init__ (and _validate_dicts / _validate_dict in place) on every argument shape with lists of "
+                 "length <= 2; longer lists are covered by the loop being the same statement for every item (not a loop invariant proof) and by the oracle"],
 ))
 
 
@@ -252,7 +253,8 @@ PLANS["C01"].relevance = {}
 
 plan(Plan(
     id="C17", title="Tag context manager restores the display hook and collects children in order",
-    contracts=[CORE + "Tag.__enter__", CORE + "Tag.__exit__", CORE + "wrap_displayhook_handler.handler_wrapper", CORE + "wrap_displayhook_handler"],
+    contracts=[CORE + "Tag.__enter__", CORE + "Tag.__exit__", CORE + "wrap_displayhook_handler.handler_wrapper", CORE + "wrap_displayhook_handler",
+               CORE + "Tag.append", CORE + "TagList.append", CORE + "TagList.extend", CORE + "_tagchilds_to_tagnodes", CORE + "is_tag_node"],
     lean={"HV.C17": ["C17_hook_restored", "C17_saved_hook_stable", "C17_reenter_raises", "C17_block_restores", "C17_kids_grow", "C17_outer_grows",
                      "C17_display_in_block", "C17_repr_kept_as_html", "C17_delivered_to_enclosing", "C17_delivered_to_base", "C17_delivered_once"]},
     oracle="c17", design_ref="§7 C17",
